@@ -68,6 +68,14 @@ type Case struct {
 	Id    *JV  `json:"id,omitempty"`
 	IdDot bool `json:"iddot,omitempty"`
 
+	// key spelling (keys.go): Spell = "" (as documented) | lower | upper1 | caps | mixed - the keys of the
+	// chain entry (chain / net / cstr; only SpellKeys if given) or of the relayer section / the environment
+	// variable names (port / dur / str / level) are written in that spelling; Dups = further entries of
+	// the chain entry (another spelling of a key, with its own value)
+	Spell     string   `json:"spell,omitempty"`
+	SpellKeys []string `json:"spellKeys,omitempty"`
+	Dups      []KV     `json:"dups,omitempty"`
+
 	Locals       []Entry `json:"locals,omitempty"`
 	Shared       []Entry `json:"shared,omitempty"`
 	SharedIntIds bool    `json:"sharedIntIds,omitempty"` // shared ids as Go int (hand-built config) instead of float64 (fetched JSON)
@@ -277,13 +285,14 @@ func isBoolField(n string) bool { return n == "fresh" || n == "latest" || n == "
 
 // cstrMap builds the chain entry of a cstr case (numbers as float64, as decoded JSON has them).
 func cstrMap(c Case) map[string]interface{} {
+	sk := func(k string) string { return spell(k, c.Spell) } // "id" and "type" stay as documented
 	m := map[string]interface{}{"id": float64(1), "type": c.Chain}
 	switch c.Chain {
 	case "substrate":
-		m["chainID"] = float64(5)
+		m[sk("chainID")] = float64(5)
 	case "btc":
-		m["network"] = "testnet"
-		m["feeAddress"] = "mkHS9ne12qx9pS9VojpwU5xtRd4T7X7ZUt"
+		m[sk("network")] = "testnet"
+		m[sk("feeAddress")] = "mkHS9ne12qx9pS9VojpwU5xtRd4T7X7ZUt"
 	}
 	nh := -1
 	hs := map[int]map[string]interface{}{}
@@ -300,11 +309,11 @@ func cstrMap(c Case) map[string]interface{} {
 			if hs[i] == nil {
 				hs[i] = map[string]interface{}{}
 			}
-			hs[i][parts[2]] = *sv.V
+			hs[i][sk(parts[2])] = *sv.V
 		case isBoolField(sv.F):
-			m[sv.F] = *sv.V == "true"
+			m[sk(sv.F)] = *sv.V == "true"
 		default:
-			m[sv.F] = *sv.V
+			m[sk(sv.F)] = *sv.V
 		}
 	}
 	if nh >= 0 {
@@ -316,7 +325,7 @@ func cstrMap(c Case) map[string]interface{} {
 			}
 			l[i] = h
 		}
-		m["handlers"] = l
+		m[sk("handlers")] = l
 	}
 	return m
 }
@@ -387,12 +396,23 @@ func load(c Case, loader string, domains []map[string]interface{}, shared *confi
 			err = fmt.Errorf("PANIC: %v", r)
 		}
 	}()
+	relSpell := Case{}
+	if c.Kind == "port" || c.Kind == "dur" || c.Kind == "str" || c.Kind == "level" {
+		relSpell.Spell = c.Spell
+	}
+	switch loader {
+	case "file0": // no shared configuration (app.go without a config url)
+		loader, shared = "file", nil
+	case "env0":
+		loader, shared = "env", nil
+	}
 	switch loader {
 	case "file":
 		doc := map[string]interface{}{"relayer": relayerDoc(c)}
 		if domains != nil {
 			doc["domains"] = domains
 		}
+		doc = spellMap(relSpell, doc)
 		b, e := json.Marshal(doc)
 		if e != nil {
 			panic(e)
@@ -412,6 +432,13 @@ func load(c Case, loader string, domains []map[string]interface{}, shared *confi
 			}
 			env["SYG_CHAINS"] = string(spellIds(c, b))
 		}
+		if relSpell.Spell != "" {
+			spelled := map[string]string{}
+			for k, v := range env {
+				spelled[spellEnvName(relSpell, k)] = v
+			}
+			env = spelled
+		}
 		for k, v := range env {
 			os.Setenv(k, v)
 		}
@@ -425,14 +452,14 @@ func load(c Case, loader string, domains []map[string]interface{}, shared *confi
 	panic("unknown loader " + loader)
 }
 
-var idNumber = regexp.MustCompile(`"id":(-?[0-9]+)([,}])`)
+var idNumber = regexp.MustCompile(`("(?i:id)"):(-?[0-9]+)([,}])`)
 
 // spellIds rewrites the integer ids of the JSON text as floats ("id":257 -> "id":257.0) for IdDot cases.
 func spellIds(c Case, b []byte) []byte {
 	if !c.IdDot {
 		return b
 	}
-	return idNumber.ReplaceAll(b, []byte(`"id":$1.0$2`))
+	return idNumber.ReplaceAll(b, []byte(`$1:$2.0$3`))
 }
 
 // idVal is the chain id of a chain case as the Go value a decoded document carries.
@@ -684,7 +711,7 @@ func run(c Case) Obs {
 		return Obs{Ok: true, Value: strconv.FormatInt(int64(d), 10)}
 	case "net":
 		c.Chain = "substrate"
-		m := chainMap(c)
+		m := chainEntry(c)
 		if c.Loader != "direct" {
 			cfg, err := load(c, c.Loader, []map[string]interface{}{m}, &config.Config{ChainConfigs: []map[string]interface{}{{"id": 1}}})
 			if err != nil {
@@ -701,10 +728,14 @@ func run(c Case) Obs {
 		}
 		return Obs{Ok: true, Value: strconv.FormatUint(uint64(sc.SubstrateNetwork), 10)}
 	case "chain":
-		m := chainMap(c)
+		m := chainEntry(c)
 		if c.Loader != "direct" {
 			// through the real loader, merged over a shared entry that only carries the id
-			cfg, err := load(c, c.Loader, []map[string]interface{}{m}, sharedFor(c))
+			shared := sharedFor(c)
+			if keyed(c) {
+				shared = &config.Config{ChainConfigs: []map[string]interface{}{sharedForEntry(m)}}
+			}
+			cfg, err := load(c, c.Loader, []map[string]interface{}{m}, shared)
 			if err != nil {
 				return Obs{Err: err.Error()}
 			}
@@ -1447,6 +1478,7 @@ func gen(r *vgen.Rng, tier string) []Case {
 	out = append(out, genChains(r, tier)...)
 	out = append(out, genChainIds(r, tier)...)
 	out = append(out, genMerges(r, tier)...)
+	out = append(out, genKeys(r, tier)...)
 	return out
 }
 
@@ -1564,8 +1596,12 @@ func coq(c Case, o Obs) string {
 			id = "(" + coqJV(*c.Id) + ")"
 		}
 		in := "(mkChainIn " + kind + " " + vgen.Bool(c.Missing != "") + " " + id + " " + optZ(c.Interval) + " " + optZ(c.Confs) + " " + optZ(c.Start) + ")"
+		ctor := "Chain "
+		if keyed(c) {
+			ctor, in = "ChainDoc ", coqDoc(c)
+		}
 		if !o.Ok {
-			return "Chain " + in + " None None"
+			return ctor + in + " None None"
 		}
 		calc := "Panic"
 		if o.Chain.Calc != "panic" {
@@ -1579,7 +1615,7 @@ func coq(c Case, o Obs) string {
 		}
 		after := "(Some (mkAfter (mkChainCfg " + zOfDec(o.Chain.AId) + " " + zOfDec(o.Chain.AInterval) + " " + zOfDec(o.Chain.AConfs) + " " + zOfDec(o.Chain.AStart) + ") " +
 			vgen.Bool(o.Chain.Same) + " " + vgen.ListOf(o.Chain.Calcs, calcOf) + "))"
-		return "Chain " + in + " (Some (mkChainCfg " + zOfDec(o.Chain.Id) + " " + zOfDec(o.Chain.Interval) + " " + zOfDec(o.Chain.Confs) + " " + zOfDec(o.Chain.Start) + ", " + calc + ")) " + after
+		return ctor + in + " (Some (mkChainCfg " + zOfDec(o.Chain.Id) + " " + zOfDec(o.Chain.Interval) + " " + zOfDec(o.Chain.Confs) + " " + zOfDec(o.Chain.Start) + ", " + calc + ")) " + after
 	case "merge":
 		impl := "None"
 		if o.Ok {
@@ -1632,6 +1668,14 @@ func emptyOverlap(c Case) bool {
 }
 
 func kind(c Case) string {
+	if keyed(c) {
+		d := c
+		d.Spell, d.SpellKeys, d.Dups = "", nil, nil
+		if len(c.Dups) > 0 {
+			return kind(d) + "-twokeys"
+		}
+		return kind(d) + "-spelled"
+	}
 	switch c.Kind {
 	case "port", "dur":
 		return c.Kind + "-" + c.Loader + "-" + c.Field
@@ -1701,6 +1745,6 @@ func main() {
 			}
 			return len(c.Locals) > 0
 		},
-		Rule: "boundary lists (0, +-1, 32767/32768, 65535/65536, 2^31, 2^63, 2^64, int64-overflow edge per duration unit) x {file, env} loader x field for ports and durations; substrateNetwork at the uint16 edges x {direct, file, env}; interval x confirmations grid x {evm, substrate, btc} x {constructor directly, via file loader, via env loader} with missing-required-field variants; the chain id through the same three constructors x three paths: 0, 1, 2, 254, 255, 256, 257, 511, 513, 65535, 65537, 2^31, 2^32+1, 2^53, -1, -255 (float64 and Go int), 3/2, 511/2, 513/2, 1/2, -1/2, 1025/1024, integers spelled as floats (1.0, 255.0, 256.0, 257.0), ids written as strings / bools, and random ids (in range, congruent to an id in range mod 256, negative, fractional) combined with other settings and missing fields; the complete two-key local/shared state matrix (absent, local only, shared only, equal, different, empty-vs-set, set-vs-empty, empty only, both empty) plus random 0..3-chain configurations with unknown ids, missing id/type, int and float ids; chain ids over 0..3, 255..258, 511..513, 65535..65537, 2^31, 2^32+1, negative, non-integral and string ids against shared configurations holding the same id, none, only a congruent id (mod 2^8 / 2^16 / 2^32, truncated / rounded), or the congruent id before the equal one; after every accepted chain config the start-block computation is run on the config's own pointers three times and String() once and ALL fields of the config object are compared by value with a snapshot taken right after loading; the 12 string-valued relayer settings (opentelemetry url, log file, env, id, key share paths, MPC key, topology encryption key / url / path, uploader url / token) x {file, env} x a catalogue of texts ('=' anywhere, '==' at the end, URL punctuation, '_' and the SYG prefix inside the value, blanks, quotes, JSON/shell meta characters, texts that look like numbers/bools/null, unicode, 4 kB) one at a time and all at once with pairwise different texts (rotated catalogue + random texts, settings left out / empty); log level names and non-names; string, bool and handler-list settings of evm/substrate/btc chain entries through the constructor directly, the file loader and SYG_CHAINS; distinct = distinct input JSON; non-trivial = text of the modelled grammar / at least one numeric setting or a missing required field / at least one local chain",
+		Rule: "boundary lists (0, +-1, 32767/32768, 65535/65536, 2^31, 2^63, 2^64, int64-overflow edge per duration unit) x {file, env} loader x field for ports and durations; substrateNetwork at the uint16 edges x {direct, file, env}; interval x confirmations grid x {evm, substrate, btc} x {constructor directly, via file loader, via env loader} with missing-required-field variants; the chain id through the same three constructors x three paths: 0, 1, 2, 254, 255, 256, 257, 511, 513, 65535, 65537, 2^31, 2^32+1, 2^53, -1, -255 (float64 and Go int), 3/2, 511/2, 513/2, 1/2, -1/2, 1025/1024, integers spelled as floats (1.0, 255.0, 256.0, 257.0), ids written as strings / bools, and random ids (in range, congruent to an id in range mod 256, negative, fractional) combined with other settings and missing fields; the complete two-key local/shared state matrix (absent, local only, shared only, equal, different, empty-vs-set, set-vs-empty, empty only, both empty) plus random 0..3-chain configurations with unknown ids, missing id/type, int and float ids; chain ids over 0..3, 255..258, 511..513, 65535..65537, 2^31, 2^32+1, negative, non-integral and string ids against shared configurations holding the same id, none, only a congruent id (mod 2^8 / 2^16 / 2^32, truncated / rounded), or the congruent id before the equal one; after every accepted chain config the start-block computation is run on the config's own pointers three times and String() once and ALL fields of the config object are compared by value with a snapshot taken right after loading; the 12 string-valued relayer settings (opentelemetry url, log file, env, id, key share paths, MPC key, topology encryption key / url / path, uploader url / token) x {file, env} x a catalogue of texts ('=' anywhere, '==' at the end, URL punctuation, '_' and the SYG prefix inside the value, blanks, quotes, JSON/shell meta characters, texts that look like numbers/bools/null, unicode, 4 kB) one at a time and all at once with pairwise different texts (rotated catalogue + random texts, settings left out / empty); log level names and non-names; string, bool and handler-list settings of evm/substrate/btc chain entries through the constructor directly, the file loader and SYG_CHAINS; key spelling: the id key as Id / ID / iD x ids in and out of 0..255 x {constructor, loader without a shared configuration, loader with one}, every key of a chain entry in lower / Upper-first / ALL CAPS / mIxEd spelling, each numeric key alone in another spelling at its range edges, one key under two spellings with different values (exact + other, two non-exact), random subsets of respelled keys, relayer-level keys and environment variable names in other spellings, respelled id / type in local and shared entries of the merge; distinct = distinct input JSON; non-trivial = text of the modelled grammar / at least one numeric setting or a missing required field / at least one local chain",
 	})
 }
